@@ -42,6 +42,10 @@ func genLine(r *rand.Rand) string {
 }
 
 func genValueRe(r *rand.Rand, pool []string) *Re {
+	return anchored(r, genValueRe0(r, pool))
+}
+
+func genValueRe0(r *rand.Rand, pool []string) *Re {
 	v := pick(r, pool)
 	switch r.Intn(5) {
 	case 0:
